@@ -8,6 +8,12 @@ CHECKS = {
  "C03": dict(cat="exploration", tech="hook monitors (pre/post conditions) on the rule and folding functions + spec-vs-block differential evaluation",
    text="Post-conditions evaluated on every call the real front-end makes to apply_transform, apply_cond_transformation, evaluate_expression(_ter), update_unary_func, compute_binary (size gate) under rule-directed workloads, plus evaluation of each emitted specification against the block on sampled states.",
    note="trusts vlib/opsem.py, vlib/sfs_eval.py, vlib/evm.py; valuations sampled (boundary pool first)", ref="3/C03"),
+ "C02": dict(cat="exploration", tech="enumeration of admissible schedules of each emitted specification, evaluated against a reference interpreter; hook monitor on are_dependent",
+   text="Every specification the real front-end emits for memory/storage-heavy generated blocks is evaluated under all (<=200) or sampled linearizations of its state-touching operations on aliasing-heavy states and compared with the block's execution; are_dependent's False answers on constant accesses are checked against a byte-range overlap computation.",
+   note="trusts vlib/sfs_eval.py (evaluator, linearization enumerator) and vlib/evm.py; states sampled", ref="3/C02"),
+ "C04": dict(cat="exploration", tech="post-condition (deep-copied pre-state) on greedy_from_json checked by symbolic execution of the returned id sequence",
+   text="A post-condition on every greedy_from_json call (real pipeline on generated blocks + direct calls on hand-built specifications): success implies the id sequence realizes the pre-call specification (no underflow, DUP/SWAP 1..16, stores once, dependencies, exact operands, final stack).",
+   note="trusts vlib/sfs_eval.realizes; hand-built specs follow the front-end JSON conventions", ref="3/C04"),
 }
 NOT_YET = {}
 def main():
